@@ -131,7 +131,7 @@ def check_levels(rep, proj):
             continue
         for ch in ("Gluon", "Singlet", "NonSinglet"):
             pres = {}
-            for res in range(4):
+            for res in range(3):
                 c = m.classes.get("Asy" + "N" * res + "LL" + ch)
                 if c is None:
                     continue
@@ -139,7 +139,7 @@ def check_levels(rep, proj):
                     obj = P.instantiate(ev, c, sym)
                 except (A.Undecided, S.Raised):
                     continue
-                for k in range(4):
+                for k in range(3):  # the property speaks about orders 0..2
                     if P.fold_order(ev, obj, k).status == "rsl":
                         pres.setdefault(k, set()).add(res)
             if not pres:
